@@ -90,6 +90,13 @@ def main(argv=None):
         return 3
 
 
+def _bounded_notes(targets):
+    """Contracts whose proof is for bounded instances only say so in their `note` (never counted as unbounded proofs)."""
+    from pyvc.api import REGISTRY
+
+    return [f"{t}: {REGISTRY[t].note}" for t in targets if t in REGISTRY and str(REGISTRY[t].note).startswith("bounded")]
+
+
 def report(prop, args, targets, results, sres, seed, t0):
     from pyvc import replay as replay_mod
 
@@ -222,7 +229,7 @@ def report(prop, args, targets, results, sres, seed, t0):
                 "known_findings_matched": known_hits,
                 "obligations_failing_as_known_findings": len(known_hits),
                 "undecided": [u["oid"] for u in undecided],
-                "bounded": sres.get("bounded", []),
+                "bounded": sres.get("bounded", []) + _bounded_notes(targets),
                 "not_covered": sres.get("not_covered", []),
             },
             "assumptions": sorted(assumptions | set(sres.get("assumptions", []))),
